@@ -23,10 +23,21 @@ open Rxn
 
 abbrev Path := String
 
+/-- a WAL file: `<dir>/<num as %06d>.wal`. `ver` counts how often a file of this name was written before, so that a
+file written over an older one is a different file: the older content is gone (an overwrite is a deletion). -/
+structure Wal where
+  dir : Nat
+  num : Nat
+  ver : Nat := 0
+deriving DecidableEq, Repr
+
+/-- the same file name -/
+def Wal.same (a b : Wal) : Bool := a.dir == b.dir && a.num == b.num
+
 /-- a file of the persistent store; table files and WAL files are different kinds of names -/
 inductive File where
   | sst (p : Path)
-  | wal (p : Path)
+  | wal (w : Wal)
 deriving DecidableEq, Repr
 
 /-- a table as a checkpoint document describes it: URI and the key groups of its first and last key -/
@@ -45,7 +56,7 @@ def uris (ts : List Tbl) : List Path := ts.map (·.uri)
 structure Ckpt where
   id : Nat
   tables : List Tbl
-  wals : List Path
+  wals : List Wal
   fromDoc : Bool
 deriving DecidableEq, Repr
 
@@ -54,7 +65,7 @@ structure Handle where
   writer : Nat
   id : Nat
   tables : List Tbl
-  wals : List Path
+  wals : List Wal
 deriving DecidableEq, Repr
 
 inductive Life where
@@ -86,6 +97,9 @@ structure Inst where
   /-- live Table objects made by `sst.NewTableFromDocument` -/
   loaded : List Tbl := []
   src : Option Nat := none
+  /-- the storage directory (operator id) and the number of the WAL file the next checkpoint seals -/
+  dir : Nat := 0
+  walNext : Nat := 0
 deriving Repr
 
 structure State where
@@ -99,6 +113,8 @@ structure State where
   /-- instances that have saved their checkpoints document at least once (a restored instance has none until its
   first checkpoint or retention update) -/
   docs : List Nat := []
+  /-- every WAL file ever written -/
+  usedW : List Wal := []
 deriving Repr
 
 /-! ## reachability of table objects -/
@@ -160,12 +176,12 @@ def decision (own : KGRange) (t : Tbl) (nbrs : List (KGRange × Ans)) : Decision
 /-! ## actions -/
 
 inductive Act where
-  | openFresh (range : KGRange) (gen : Nat) (nbrs : List KGRange)
+  | openFresh (range : KGRange) (gen : Nat) (nbrs : List KGRange) (dir : Nat)
   /-- restore from checkpoint `id` of the documents of the writers `ws` (several after a scale-in) -/
-  | openFrom (range : KGRange) (gen : Nat) (nbrs : List KGRange) (ws : List Nat) (id : Nat)
+  | openFrom (range : KGRange) (gen : Nat) (nbrs : List KGRange) (ws : List Nat) (id : Nat) (dir : Nat)
   | flush (i : Nat) (t : Tbl)
   | compact (i : Nat) (rm : List Path) (add : List Tbl)
-  | ckpt (i id : Nat) (wal : Path)
+  | ckpt (i id : Nat) (wal : Wal)
   | jobDrop (k : Nat)
   | retain (i : Nat) (ids : List Nat)
   | snap (i : Nat)
@@ -183,10 +199,25 @@ def setInst (s : State) (i : Nat) (x : Inst) : State := { s with insts := s.inst
 
 def rmFile (fs : List File) (f : File) : List File := fs.filter (· ≠ f)
 
-def rmWals (fs : List File) (ws : List Path) : List File := fs.filter fun f =>
+/-- `Checkpoint.Destroy` deletes WAL files by name: whatever file currently has the name of one of `ws` -/
+def rmWals (fs : List File) (ws : List Wal) : List File := fs.filter fun f =>
   match f with
-  | .wal w => !ws.contains w
+  | .wal v => !ws.any (fun w => w.same v)
   | .sst _ => true
+
+/-- saving a WAL file replaces whatever file had its name -/
+def clobber (fs : List File) (w : Wal) : List File := fs.filter fun f =>
+  match f with
+  | .wal v => !w.same v
+  | .sst _ => true
+
+/-- `Checkpoint.NextWALID`: one more than the LARGEST WAL number among the handles of the loaded checkpoint
+(`c09NextWalIsMax`; the handles of a composite checkpoint are in document order, not in numbering order) -/
+def nextWalId (ws : List Wal) : Nat :=
+  if Facts.c09NextWalIsMax == 1 then ws.foldl (fun m w => max m w.num) 0 + 1
+  else match ws.getLast? with
+    | some w => w.num + 1
+    | none => 0
 
 def allFresh (used : List Path) : List Path → Bool
   | [] => true
@@ -197,7 +228,7 @@ belongs to a job checkpoint that is still being completed) -/
 def keeps (ids : List Nat) (c : Ckpt) : Bool := ids.contains c.id || ids.foldl max 0 < c.id
 def droppedOf (cs : List Ckpt) (ids : List Nat) : List Ckpt := cs.filter fun c => !keeps ids c
 def keptOf (cs : List Ckpt) (ids : List Nat) : List Ckpt := cs.filter fun c => keeps ids c
-def walsOf (cs : List Ckpt) : List Path := cs.flatMap (·.wals)
+def walsOf (cs : List Ckpt) : List Wal := cs.flatMap (·.wals)
 
 def writerAlive (s : State) (w : Nat) : Bool :=
   match s.insts[w]? with
@@ -211,17 +242,24 @@ def docEntry (s : State) (w id : Nat) : Option Ckpt :=
   | some wi => if s.docs.contains w then wi.ckpts.find? (fun c => c.id == id) else none
 
 /-- tables and WAL handles of the composite checkpoint, in handle order; `none` if a document lacks the id -/
-def gather (s : State) : List Nat → Nat → Option (List Tbl × List Path)
+def gather (s : State) : List Nat → Nat → Option (List Tbl × List Wal)
   | [], _ => some ([], [])
   | w :: ws, id =>
     match docEntry s w id, gather s ws id with
     | some c, some (ts, wl) => some (c.tables ++ ts, c.wals ++ wl)
     | _, _ => none
 
+/-- saving the `checkpoints` document of instance `i` replaces the document of any earlier instance of the same
+directory -/
+def saveDoc (s : State) (i dir : Nat) : List Nat :=
+  i :: s.docs.filter fun k => match s.insts[k]? with
+    | some y => y.dir != dir
+    | none => true
+
 def step (s : State) : Act → Option State
-  | .openFresh range gen nbrs =>
-    some { s with insts := s.insts ++ [{ gen := gen, range := range, nbrs := nbrs }] }
-  | .openFrom range gen nbrs ws id =>
+  | .openFresh range gen nbrs dir =>
+    some { s with insts := s.insts ++ [{ gen := gen, range := range, nbrs := nbrs, dir := dir }] }
+  | .openFrom range gen nbrs ws id dir =>
     -- `recovery.LoadCheckpointList`: the entries with the handle's id of every document, merged into one checkpoint
     match ws, gather s ws id with
     | [], _ => none
@@ -229,7 +267,8 @@ def step (s : State) : Act → Option State
     | _ :: _, some (ts, wl) =>
       some { s with
         insts := s.insts ++ [{ gen := gen, range := range, nbrs := nbrs, current := ts, loaded := ts,
-                               ckpts := [⟨id, ts, wl, true⟩], src := some id }],
+                               ckpts := [⟨id, ts, wl, true⟩], src := some id, dir := dir,
+                               walNext := nextWalId wl }],
         -- ghost: restarting from checkpoint `id` abandons the newer checkpoints of writers that are gone
         retained := s.retained.filter fun h => h.id ≤ id || writerAlive s h.writer }
   | .flush i t =>
@@ -253,11 +292,13 @@ def step (s : State) : Act → Option State
     match s.insts[i]? with
     | none => none
     | some x =>
-      if x.life = .alive ∧ s.floor < id ∧ x.ckpts.all (fun c => c.id != id) ∧ ¬ s.used.contains wal then
-        some { setInst s i { x with ckpts := x.ckpts ++ [⟨id, x.current, [wal], false⟩] } with
-               files := .wal wal :: s.files, used := wal :: s.used,
+      -- the sealed WAL is file number `walNext` of the instance's directory (whatever had that name is overwritten)
+      if x.life = .alive ∧ s.floor < id ∧ x.ckpts.all (fun c => c.id != id) ∧ ¬ s.usedW.contains wal ∧
+          wal.dir = x.dir ∧ wal.num = x.walNext then
+        some { setInst s i { x with ckpts := x.ckpts ++ [⟨id, x.current, [wal], false⟩], walNext := x.walNext + 1 } with
+               files := .wal wal :: clobber s.files wal, usedW := wal :: s.usedW,
                retained := ⟨i, id, x.current, [wal]⟩ :: s.retained, nextId := max s.nextId (id + 1),
-               docs := i :: s.docs }
+               docs := saveDoc s i x.dir }
       else none
   | .jobDrop k =>
     if k < s.nextId then
@@ -269,7 +310,7 @@ def step (s : State) : Act → Option State
     | some x =>
       if x.life = .alive ∧ keptOf x.ckpts ids ≠ [] then
         some { setInst s i { x with ckpts := keptOf x.ckpts ids } with
-               files := rmWals s.files (walsOf (droppedOf x.ckpts ids)), docs := i :: s.docs }
+               files := rmWals s.files (walsOf (droppedOf x.ckpts ids)), docs := saveDoc s i x.dir }
       else none
   | .snap i =>
     match s.insts[i]? with
@@ -378,12 +419,13 @@ def aliveAt (s : State) (i : Nat) : Bool :=
 
 /-- * an instance is opened only when no other is running — empty when the job has no checkpoint, otherwise from ONE
   checkpoint handle the job still retains;
+* every instance gets a storage directory of its own (directory number = instance number);
 * no instance is released inside a living process (D25), and a dead process runs no cleanups;
 * the job asks an operator to drop only checkpoints it has dropped (oldest first: `jobDrop`). -/
 def inScopeL (s : State) : Act → Bool
-  | .openFresh .. => noneAlive s && s.retained.isEmpty
-  | .openFrom _ _ _ ws id =>
-    noneAlive s && (match ws with
+  | .openFresh _ _ _ dir => noneAlive s && s.retained.isEmpty && dir == s.insts.length
+  | .openFrom _ _ _ ws id dir =>
+    noneAlive s && dir == s.insts.length && (match ws with
       | [w] => s.retained.any fun h => h.writer == w && h.id == id
       | _ => false)
   | .release _ => false
